@@ -311,6 +311,10 @@ def check(ctx):
     rule_setitem(ctx)
     rule_writers(ctx)
     rule_widening(ctx)
+    # put(values, indices, axis=k): the (index, axis) form and the orthogonal conversion shared with reads (C01)
+    from . import c01
+    c01.rule_axis_argument(ctx, rid='R6')
+    c01.rule_orthogonal_indexer(ctx, rid='R7')
     ctx.not_decided += ['which cells NumPy writes for a given fancy index', 'broadcasting of the right-hand side',
                         'read-back equality (value level)']
     ctx.trusted += ['numpy.asarray(x, dtype=) converts without changing shape', 'CPython ast module']
